@@ -1,4 +1,5 @@
 import TracklibVerif.Lemmas.GraphBack
+import TracklibVerif.Lemmas.GraphPathExt
 import Mathlib.Algebra.Order.Group.Int
 /-! # C07 — a returned shortest path is a real, optimal, geometrically continuous route
 
@@ -118,6 +119,253 @@ theorem never_diverges (net : Net W) (hnet : WFNet net) (hu : UniqueIds net) (ge
   | some p =>
     obtain ⟨l, g, g', y, _, _, hb⟩ := h2 p hpt
     rw [hb]; intro h; cases h
+
+/-! ### with a cut-off (also below the true distance) -/
+
+/-- `shortest_path(s, t, cut)` for ANY cut-off, also one below the true distance (the forward pass then stops on a
+label greater than the cut-off and may leave `t` with a tentative label): whatever is returned as a path is a real
+route from `s` to `t` with its geometry chained, the weights of its edges sum to the value `y` that
+`shortest_distance(s, t, cut)` reports, `y` is at least the true distance `d`, and if `y` does not exceed the
+cut-off then `y = d`. So a returned path is optimal or visibly heavier than the cut-off, never a fake. -/
+theorem path_cut_sound (net : Net W) (hnet : WFNet net) (hu : UniqueIds net) (geo : Geo P) (s t : Nat) (hs : s < net.n)
+    (cut : Option W) (nodes : List Nat) (geom : List P) (h : shortestPath net geo s t cut = .path nodes geom) :
+    ∃ l g g' y d, nodes = l ++ [t] ∧ geom = g ++ [geo.pos t] ∧ Route net geo s l g g' t y ∧
+      shortestDistance net s t cut = some y ∧ IsDist net s t d ∧ d ≤ y ∧ (Within cut y → y = d) := by
+  obtain ⟨l, g, g', y, a, b, _, c, hw, e⟩ := path_is_walk net hnet hu geo s t hs cut nodes geom h
+  cases hr : (run net net.n (St.init s)).d t with
+  | none => exact absurd ⟨y, hw⟩ ((run_none net hnet s hs t).1 hr)
+  | some d =>
+    have hd : IsDist net s t d := (run_isDist net hnet s hs t d).1 hr
+    have hle : d ≤ y := hd.2 y hw
+    refine ⟨l, g, g', y, d, a, b, c, e, hd, hle, fun hwi => ?_⟩
+    have hwd : Within cut d := fun c' hc' => le_trans hle (hwi c' hc')
+    have : shortestDistance net s t cut = some d := by
+      unfold shortestDistance runForward
+      exact forward_label net hnet s t cut d hwd net.n _ _ (inv_init net s hs) hr
+    rw [this] at e
+    exact (Option.some.inj e).symm
+
+/-! ### the track operators (`copy`, `reverse`, `>`, `+`) as modelled for C04 -/
+open TV.GraphExt
+
+omit [IsOrderedAddMonoid W] in
+/-- `shortest_path` with `run_routing_backward` written on TRACKS with the operators of the C04 model
+(`track = track + (edge_geom > 1)` = `Seq.concat track (Seq.dropFirst edge_geom 1)`, `reverse` = copy with the points
+reversed, `Track()` / `addObs`) returns: `None` / a path exactly when the list-level model does, with the same node list,
+the same points, and no analytical feature. The proof uses the C04 property theorems `TV.C04.concat_spec` and
+`TV.C04.dropFirst_spec` for the two operators. -/
+theorem track_operators_agree (net : Net W) (geo : GeoT) (s t : Nat) (cut : Option W) :
+    shortestPathT net geo s t cut = liftBack (shortestPath net geo.toGeo s t cut) :=
+  runBackwardT_eq net geo _ t
+
+/-- T3 through the track operators: when every edge geometry starts at its source's position and ends at its
+target's, the `Track` returned by `shortest_path(s, t, cut)` has exactly the points `pos s` followed by the polylines
+of the edges used, each oriented along the travel and without its first vertex (`edge_geom > 1`: junction vertices
+once); it starts at the position of `s`, ends at the position of `t` and carries no analytical feature. Edge
+polylines are arbitrary lists: repeated vertices, two-vertex and one-vertex geometries, edges stored against the
+direction of travel (`SENS_INVERSE`) and parallel edges are all covered. -/
+theorem geometry_chained_track (net : Net W) (hnet : WFNet net) (hu : UniqueIds net) (geo : GeoT)
+    (hgeo : GeoOK net geo.toGeo) (s t : Nat) (hs : s < net.n) (cut : Option W) (nodes : List Nat) (trk : Seq.Track)
+    (h : shortestPathT net geo s t cut = .path nodes trk) :
+    ∃ l g g' y, nodes = l ++ [t] ∧ Route net geo.toGeo s l g g' t y ∧ trk.pts = geo.pos s :: g' ∧ trk.table = [] ∧
+      trk.pts.head? = some (geo.pos s) ∧ trk.pts.getLast? = some (geo.pos t) := by
+  rw [track_operators_agree] at h
+  obtain ⟨h1, h2⟩ := liftBack_path h
+  obtain ⟨l, g, g', y, a, b, c, d, e⟩ := geometry_chained net hnet hu geo.toGeo hgeo s t hs cut nodes trk.pts h1
+  exact ⟨l, g, g', y, a, b, c, h2, d, e⟩
+
+/-- T1/T2/T4 through the track operators: `None` exactly when the list-level model returns `None`, never a
+divergence; a returned track's points are a route's chain closed by the position of `t`, and without cut-off the
+weights sum to the true distance. -/
+theorem path_optimal_track (net : Net W) (hnet : WFNet net) (hu : UniqueIds net) (geo : GeoT) (s t : Nat) (hs : s < net.n) :
+    shortestPathT net geo s t none ≠ .diverge ∧
+    (shortestPathT net geo s t none = .none ↔ (¬ Reachable net s t ∨ t = s)) ∧
+    (∀ nodes trk, shortestPathT net geo s t none = .path nodes trk →
+      ∃ l g g' y, nodes = l ++ [t] ∧ trk = ⟨g ++ [geo.pos t], []⟩ ∧ Route net geo.toGeo s l g g' t y ∧ IsDist net s t y) := by
+  rw [track_operators_agree]
+  refine ⟨fun h => never_diverges net hnet hu geo.toGeo s t hs none (liftBack_diverge.1 h), ?_, ?_⟩
+  · rw [liftBack_none]
+    constructor
+    · intro h
+      by_contra hc
+      have hc' : Reachable net s t ∧ t ≠ s := by
+        constructor
+        · by_contra h'; exact hc (Or.inl h')
+        · intro h'; exact hc (Or.inr h')
+      obtain ⟨nodes, geom, hp⟩ := reachable_path net hnet hu geo.toGeo s t hs hc'.1 hc'.2
+      rw [h] at hp; cases hp
+    · exact unreachable_none net hnet hu geo.toGeo s t hs none
+  · intro nodes trk h
+    obtain ⟨h1, h2⟩ := liftBack_path h
+    obtain ⟨l, g, g', y, a, b, c, d⟩ := path_optimal net hnet hu geo.toGeo s t hs nodes trk.pts h1
+    refine ⟨l, g, g', y, a, ?_, c, d⟩
+    cases trk with
+    | mk p tb => simp only at b h2; rw [b, h2]; rfl
+
+/-! ### several searches on one `Network` object -/
+
+omit [IsOrderedAddMonoid W] in
+/-- `shortest_path(source, target, cut[, output_dict])` called at any point of a session returns what it returns on
+a fresh network: it does not depend on the flags left on the nodes by earlier searches (`__resetFlags`), on whether
+the nodes are designated by id or by `Node` object (`__correctInputNode`), nor on an `output_dict` being passed; the
+label left on the target is what `shortest_distance` with the same arguments reports. -/
+theorem session_path_fresh (net : Net W) (geo : GeoT) (order : List Nat) (se : Sess W) (s t : NodeArg) (cut : Option W)
+    (ud : Bool) :
+    (stepOp net geo order se (.path s t cut ud)).2 =
+      .path (shortestPathT net geo (correctInputNode s) (correctInputNode t) cut)
+            (shortestDistance net (correctInputNode s) (correctInputNode t) cut) := rfl
+
+omit [IsOrderedAddMonoid W] in
+/-- `shortest_distance(source, target, cut[, output_dict])` at any point of a session = on a fresh network -/
+theorem session_dist_fresh (net : Net W) (geo : GeoT) (order : List Nat) (se : Sess W) (s t : NodeArg) (cut : Option W)
+    (ud : Bool) :
+    (stepOp net geo order se (.dist s (some t) cut ud)).2 =
+      .dist (shortestDistance net (correctInputNode s) (correctInputNode t) cut) := rfl
+
+omit [IsOrderedAddMonoid W] in
+/-- the entries written to a caller's `output_dict` by `shortest_path(s, t, cut, output_dict)` and by
+`shortest_distance(s, t, cut, output_dict)` are the same, and so are the flags left on the nodes -/
+theorem session_path_dist_same_state (net : Net W) (geo : GeoT) (order : List Nat) (se : Sess W) (s t : NodeArg)
+    (cut : Option W) (ud : Bool) :
+    (stepOp net geo order se (.path s t cut ud)).1 = (stepOp net geo order se (.dist s (some t) cut ud)).1 := rfl
+
+/-- the flags a session leaves on the nodes are those of a forward pass from some source of the network -/
+def SessGood (net : Net W) (se : Sess W) : Prop := ∀ st, se.flags = some st → ∃ s, s < net.n ∧ Good net s st
+
+/-- the source of the call is a node of the network -/
+def OpOk (net : Net W) : Op W → Prop
+  | .path s _ _ _ => correctInputNode s < net.n
+  | .dist s _ _ _ => correctInputNode s < net.n
+  | .fwd s _ _ _ => correctInputNode s < net.n
+  | .back _ => True
+
+omit [IsOrderedAddMonoid W] in
+theorem sessGood_start (net : Net W) : SessGood net (Sess.start : Sess W) := by
+  intro st h; cases h
+
+theorem sess_forward_good (net : Net W) (hnet : WFNet net) (se : Sess W) (s : NodeArg) (t : Option NodeArg)
+    (cut : Option W) (ud : Bool) (hs : correctInputNode s < net.n) : SessGood net (se.forward net s t cut ud) := by
+  intro st h
+  simp only [Sess.forward, Option.some.injEq] at h
+  subst h
+  exact ⟨correctInputNode s, hs, forward_good net hnet _ _ cut net.n _ [] (good_init net _ hs)⟩
+
+theorem stepOp_good (net : Net W) (hnet : WFNet net) (geo : GeoT) (order : List Nat) (se : Sess W) (op : Op W)
+    (hok : OpOk net op) (hse : SessGood net se) : SessGood net (stepOp net geo order se op).1 := by
+  cases op with
+  | path s t cut ud =>
+    have := sess_forward_good net hnet se s (some t) cut ud hok
+    simp only [stepOp]
+    split <;> exact this
+  | dist s t cut ud =>
+    have := sess_forward_good net hnet se s t cut ud hok
+    simp only [stepOp]
+    split <;> exact this
+  | fwd s t cut ud => exact sess_forward_good net hnet se s t cut ud hok
+  | back t =>
+    simp only [stepOp]
+    split <;> exact hse
+
+/-- what a `.path` output of a session must be: never a divergence; a returned track is the chain of a real route
+(from the source of the last search) closed by the position of its last node, without analytical feature, and the
+weights of the route's edges sum to the label reported with it -/
+def OutOk (net : Net W) (geo : GeoT) : Out W → Prop
+  | .path b label => b ≠ .diverge ∧ ∀ nodes trk, b = .path nodes trk →
+      ∃ s t l g g' y, nodes = l ++ [t] ∧ trk = ⟨g ++ [geo.pos t], []⟩ ∧ Route net geo.toGeo s l g g' t y ∧ label = some y
+  | _ => True
+
+theorem backward_out_ok (net : Net W) (hu : UniqueIds net) (geo : GeoT) (s : Nat) (st : St W) (hg : Good net s st)
+    (t : Nat) : OutOk net geo (.path (runBackwardT net geo st t) (st.d t)) := by
+  obtain ⟨h1, h2⟩ := runBackward_spec net hu geo.toGeo s st hg t
+  rw [runBackwardT_eq]
+  cases hp : st.pred t with
+  | none => rw [h1 hp]; exact ⟨fun h => (by cases h), fun _ _ h => by cases h⟩
+  | some p =>
+    obtain ⟨l, g, g', y, hd, hr, hb⟩ := h2 p hp
+    rw [hb]
+    refine ⟨fun h => (by cases h), fun nodes trk h => ?_⟩
+    simp only [liftBack, BackT.path.injEq] at h
+    obtain ⟨rfl, rfl⟩ := h
+    exact ⟨s, t, l, g, g', y, rfl, rfl, hr, hd⟩
+
+/-- STATE MACHINE: in any sequence of calls `shortest_path` / `shortest_distance` / `run_routing_forward` /
+`run_routing_backward` on one network (nodes by id or by object, with or without `output_dict`, any targets and
+cut-offs, `run_routing_backward` for any node after any search), the backward loop always terminates and every track
+returned is the chain of a real route whose edge weights sum to the label of its last node. -/
+theorem session_outputs_ok (net : Net W) (hnet : WFNet net) (hu : UniqueIds net) (geo : GeoT) (order : List Nat) :
+    ∀ (ops : List (Op W)) (se : Sess W), (∀ op ∈ ops, OpOk net op) → SessGood net se →
+      (∀ o ∈ (runSession net geo order se ops).1, OutOk net geo o) ∧ SessGood net (runSession net geo order se ops).2 := by
+  intro ops
+  induction ops with
+  | nil => intro se _ hse; exact ⟨fun o ho => (by cases ho), hse⟩
+  | cons op ops ih =>
+    intro se hok hse
+    have hop := hok op (List.mem_cons_self)
+    have hse' := stepOp_good net hnet geo order se op hop hse
+    obtain ⟨ih1, ih2⟩ := ih (stepOp net geo order se op).1 (fun o ho => hok o (List.mem_cons_of_mem _ ho)) hse'
+    refine ⟨?_, ih2⟩
+    intro o ho
+    simp only [runSession, List.mem_cons] at ho
+    rcases ho with rfl | ho
+    · cases op with
+      | path s t cut ud =>
+        have hg := sess_forward_good net hnet se s (some t) cut ud hop
+        simp only [stepOp]
+        split
+        · rename_i st hst
+          obtain ⟨s0, _, hgood⟩ := hg st hst
+          exact backward_out_ok net hu geo s0 st hgood _
+        · trivial
+      | dist s t cut ud =>
+        simp only [stepOp]
+        split <;> trivial
+      | fwd s t cut ud => trivial
+      | back t =>
+        simp only [stepOp]
+        split
+        · trivial
+        · rename_i st hst
+          obtain ⟨s0, _, hgood⟩ := hse st hst
+          exact backward_out_ok net hu geo s0 st hgood _
+    · exact ih1 o ho
+
+/-- paths requested after a distance-only search: after `shortest_distance(s)` / `run_routing_forward(s)` (no target,
+no cut-off), `run_routing_backward(t)` returns `None` exactly when `t` is unreachable or `t = s`, and otherwise a
+route from `s` to `t` whose weights sum to the true distance — for every `t`, in any order, as often as wanted. -/
+theorem backward_after_full_search (net : Net W) (hnet : WFNet net) (hu : UniqueIds net) (geo : GeoT) (s : Nat)
+    (hs : s < net.n) (t : Nat) :
+    runBackwardT net geo (runForward net s none none).1 t ≠ .diverge ∧
+    (runBackwardT net geo (runForward net s none none).1 t = .none ↔ (¬ Reachable net s t ∨ t = s)) ∧
+    (∀ nodes trk, runBackwardT net geo (runForward net s none none).1 t = .path nodes trk →
+      ∃ l g g' y, nodes = l ++ [t] ∧ trk = ⟨g ++ [geo.pos t], []⟩ ∧ Route net geo.toGeo s l g g' t y ∧ IsDist net s t y) := by
+  have hg : Good net s (runForward net s none none).1 := forward_good net hnet s none none net.n _ [] (good_init net s hs)
+  have hrun : (runForward net s none none).1 = run net net.n (St.init s) := forward_full net net.n _ []
+  obtain ⟨h1, h2⟩ := runBackward_spec net hu geo.toGeo s _ hg t
+  obtain ⟨hinv, rk, K, hp⟩ := hg
+  rw [runBackwardT_eq]
+  cases hpt : (runForward net s none none).1.pred t with
+  | none =>
+    rw [h1 hpt]
+    refine ⟨fun h => (by cases h), ⟨fun _ => ?_, fun _ => rfl⟩, fun _ _ h => by cases h⟩
+    by_cases hts : t = s
+    · exact Or.inr hts
+    · left
+      cases hd : (runForward net s none none).1.d t with
+      | none => rw [hrun] at hd; exact (run_none net hnet s hs t).1 hd
+      | some y =>
+        have := hp.p3 t y hts hd
+        rw [hpt] at this; cases this
+  | some p =>
+    obtain ⟨l, g, g', y, hd, hr, hb⟩ := h2 p hpt
+    rw [hb]
+    refine ⟨fun h => (by cases h), ⟨fun h => (by cases h), fun h => ?_⟩, fun nodes trk h => ?_⟩
+    · rcases h with h | h
+      · exact absurd ⟨y, hr.walk⟩ h
+      · subst h; rw [hp.p1] at hpt; cases hpt
+    · simp only [liftBack, BackT.path.injEq] at h
+      obtain ⟨rfl, rfl⟩ := h
+      rw [hrun] at hd
+      exact ⟨l, g, g', y, rfl, rfl, hr, (run_isDist net hnet s hs t y).1 hd⟩
 
 /-! ### the hypotheses are satisfiable by a non-trivial network, and the model computes on it -/
 
